@@ -91,6 +91,10 @@ impl Monitor for C16 {
             match serde_json::to_string(&p).ok().and_then(|t| serde_json::from_str::<BaseBandModulationParams>(&t).ok()) {
                 Some(q) => {
                     col.event("params_reloaded");
+                    if q != p {
+                        col.violation(&format!("C16|toa|reloaded-parameters-differ|ldro_same={}", q.ldro == p.ldro), "modulation parameters read back from the crate's serialised form are not the parameters that were stored", json!({"sf": sfn as i64, "bw": BW_NAME[bwi], "stored": format!("{:?}", p), "read_back": format!("{:?}", q)}));
+                        return;
+                    }
                     p = q;
                 }
                 None => {
